@@ -321,3 +321,14 @@ bool reject_new_bad(draco::DecoderBuffer *b, uint32_t *out) {
   return true;
 }
 }  // namespace verif_control
+
+// ---- ALLOCGUARD: an unsigned count compared through a signed view ---------------------------
+namespace verif_control {
+bool alloc_signed_view_bad(draco::DecoderBuffer *b, std::vector<int> *v, int num_corners) {
+  uint32_t n;
+  if (!draco::DecodeVarint(&n, b)) return false;
+  if (static_cast<int>(n) > num_corners) return false;   // 0x80000000.. is negative and passes
+  v->resize(n);
+  return true;
+}
+}  // namespace verif_control
